@@ -2,11 +2,11 @@ package main
 
 import (
 	"encoding/json"
-	"os/exec"
-	"sort"
 	"flag"
 	"fmt"
 	"os"
+	"os/exec"
+	"sort"
 	"strings"
 )
 
